@@ -95,8 +95,17 @@ impl Clone for AppService {
     }
 }
 
+/// Real-thread scenarios only: every clone of the service takes this long to drop (a service that
+/// flushes or joins something when it goes away), which widens the window between "shutdown()
+/// returned" and "the last clone is gone" should the two not be ordered.
+pub static SLOW_DROP_MS: std::sync::atomic::AtomicU64 = std::sync::atomic::AtomicU64::new(0);
+
 impl Drop for AppService {
     fn drop(&mut self) {
+        let ms = SLOW_DROP_MS.load(Ordering::Relaxed);
+        if ms > 0 {
+            std::thread::sleep(std::time::Duration::from_millis(ms));
+        }
         self.live.fetch_sub(1, Ordering::SeqCst);
     }
 }
